@@ -4,6 +4,31 @@ import json, sys
 ALL = ["C%02d" % i for i in range(1, 21)]
 # id -> (category, technique, text, note, design_ref)
 CLAIMED = {
+ "C02": ("exploration",
+         "grid enumeration: option grid x inputs relative to the block size x every subset of a cut-point alphabet as Write calls (with Flush subsets, empty writes) or ReadFrom under 49 fragmentation patterns, composed through the frame bytes with every read-back pattern (Reader concurrency x WriteTo / Read buffer-size cycles)",
+         "Every (options, input, delivery) point produces a frame with the real Writer; every distinct frame is decoded by the real Reader under every read-back pattern and must give exactly the input followed by a clean end.",
+         "Concurrent objects run free here (one schedule per case); the schedule axis is decided under the controlled scheduler in C08/C14. Inputs limited to the listed lengths/contents.",
+         "DESIGN.md §4 C02"),
+ "C05": ("fault_enumeration",
+         "complete enumeration of mutations of base frames (every bit flip, structural byte substitutions, pairs of structural bit flips, block delete/duplicate/swap, splices) x reader configurations, acceptance compared with an independent frame parser run on the consumed bytes",
+         "For every mutant and reader configuration: if the Reader ends cleanly, ref.Parse must accept exactly the bytes the Reader consumed and yield identical output. The base set covers every flag combination, raw/compressed/empty block mixes, dependent blocks, Writer-produced frames, legacy frames and a skippable prefix.",
+         "Trusted: ref.Parse, lenient only on what the statement does not name. Multi-field coordinated corruption beyond two bit flips is out of scope.",
+         "DESIGN.md §4 C05"),
+ "C06": ("fault_enumeration",
+         "every prefix (crash point) of every base frame x reader configurations",
+         "Every cut position 1..len-1 of every base frame of at most 4 KiB (structural boundaries +-3 and a stride for longer ones) is read through Read (1, 7, 64K byte buffers) and WriteTo with concurrency 1 and 2: the outcome must be a non-clean error and the delivered bytes a prefix of the content (legacy: clean only on a block boundary).",
+         "Interior cut positions of frames > 4 KiB are strided.",
+         "DESIGN.md §4 C06"),
+ "C07": ("fault_enumeration",
+         "bounded-exhaustive enumeration of hostile streams (all byte strings up to length 2/3, all first words around the magics, grammar-built frames with hostile field values, long chains of skippable frames and legacy magics under a reduced stack limit, all C05 mutants) with termination, panic, crash and allocation-bound monitors",
+         "Each stream is read with several concurrency settings through Read and WriteTo inside a worker process whose death (stack overflow, out of memory) is attributed to the exact case through a shared-memory breadcrumb; allocation volume is bounded for hostile size fields; non-magic words must give ErrInvalidFrame and skippable frames must skip exactly the announced bytes.",
+         "Inputs longer than 3 bytes are structured, not arbitrary. Goroutine-level blocking under all schedules is decided in C08.",
+         "DESIGN.md §4 C07"),
+ "C09": ("exploration",
+         "grid enumeration of emitted frames (option grid x inputs incl. zero-checksum and incompressible ones x deliveries) parsed by an independent strict implementation of the frame specification",
+         "Every distinct frame the Writer (and the compressing reader) emits over the grid is accepted by ref.Parse in strict mode with nothing left over, decodes to the input, and its descriptor reflects the options.",
+         "Trusted: ref.Parse/ref.Decode/ref.XXH32. For legacy frames delivered with an explicit Flush the 8-MiB-per-block rule is not applied (a Flush necessarily ends a block early).",
+         "DESIGN.md §4 C09"),
  "C08": ("model_checking",
          "stateless model checking of the real pipeline code: controlled cooperative scheduler (channels, mutexes, pools, spawns rewritten onto it by a go/types-driven source rewriter), DFS over all choice sequences with iterative preemption bounding and state-key pruning; deadlock/leak/runaway/poison/order monitors on every execution",
          "Each closed scenario (writer call sequences incl. Flush, buffer-full hand-off, ReadFrom, reuse, OnBlockDone, sink failing at every call k; reader scenarios incl. corrupt block j, source failing at call k, checksum mismatch, missing end mark, legacy, reuse) is explored over every interleaving within the preemption bound (quick 2, fault families 1; thorough 3/2). A call that would block forever is a deadlock state, a goroutine left blocked is a leak state; released buffers are poisoned and audited; sink bytes must equal the sequential run's.",
